@@ -47,6 +47,11 @@ type PeerSpec struct {
 	Late   bool   `json:"connects_after_first_drop,omitempty"`
 	// long-chain stage
 	HookAt int64 `json:"connected_by_the_gap_hook_at,omitempty"` // class "gap": connected by the harness inside the verify/apply window of that height
+	// class "pusher": sends blocks nobody asked it for; NoStatus: never reports a status (so it is never picked)
+	Pusher   bool    `json:"pusher,omitempty"`
+	NoStatus bool    `json:"no_status,omitempty"`
+	Push     []int64 `json:"pushes_heights,omitempty"`
+	PushKind string  `json:"push_kind,omitempty"`
 	// class "leftover": answers the heights in Ahead first (with AheadKind blocks), everything else only
 	// once those have been delivered: then it leaves, or answers up to CatchAt+1 with a forged block at CatchAt
 	Ahead           []int64 `json:"ahead,omitempty"`
@@ -110,10 +115,10 @@ func (p *PeerSpec) beh(h int64) BehAt {
 
 // classOf fixes the class of every case index (fixed-length lists per tier).
 var classPattern = []string{"control", "tip", "quorum", "signed", "nilfork", "replica", "inflated", "leftover", "tip", "gap",
-	"attip", "quorum", "replica", "inflated", "nilfork", "second", "gap", "mixed", "leftover", "second"}
+	"attip", "quorum", "replica", "pusher", "nilfork", "second", "gap", "mixed", "leftover", "pusher"}
 
 // the quick tier's v1 / v2 cases
-var otherVersionsPattern = []string{"quorum", "second", "replica", "gap", "signed", "nilfork", "tip", "replica", "attip", "leftover"}
+var otherVersionsPattern = []string{"pusher", "second", "replica", "gap", "signed", "nilfork", "tip", "replica", "attip", "leftover"}
 
 // The deciding target is v0.  The same peers also drive v1 and v2: a few cases of the boundary /
 // second-block / fork classes in the quick tier, the whole pattern in the thorough tier.
@@ -687,6 +692,9 @@ func genScenario(c *verdict.Ctx, idx int) (*Scenario, *world) {
 	if sc.Class == "leftover" {
 		chainLen = 30 + r.Intn(15)
 	}
+	if sc.Class == "pusher" {
+		chainLen = 45 + r.Intn(16)
+	}
 	sc.Chain = ChainSpec{Seed: r.Int63(), Powers: powers, Len: chainLen, Initial: 1,
 		ValChanges: r.Intn(10) < 7, NonCommit: []float64{0, 0.3, 0.6}[r.Intn(3)], FailedProb: []float64{0, 0.15, 0.3}[r.Intn(3)]}
 	nilforkStep, nilforkWeak := 0, false
@@ -886,6 +894,20 @@ func genScenario(c *verdict.Ctx, idx int) (*Scenario, *world) {
 		if sc.NodeStart >= g-1 {
 			sc.NodeStart = 0
 		}
+	case "pusher":
+		// One honest peer serves everything, slowly, so the requests beyond its 20 outstanding ones wait
+		// for a peer.  A pusher — connected, but never reporting a status (so it is never picked), or
+		// reporting one that makes it ineligible — sends well-formed blocks nobody asked it for, for the
+		// heights just ahead of what has been requested.  Nothing it pushes may be kept; the honest peer
+		// must not pay for it.
+		sc.NodeStart = 0
+		sc.WindowMs, sc.MaxPerWindow, sc.HoldProb = 40+r.Intn(40), 2, 0
+		sc.Peers = append(sc.Peers, honest("h0", T))
+		pz := PeerSpec{Name: "push0", Base: w.first, Height: w.first, Pusher: true, NoStatus: r.Intn(3) != 0, PushKind: []string{"honest", "wrongTxs"}[r.Intn(2)]}
+		for a, k := w.first+20, 8+r.Intn(5); len(pz.Push) < k && a <= T-2; a++ {
+			pz.Push = append(pz.Push, a)
+		}
+		sc.Peers = append(sc.Peers, pz)
 	case "attip":
 		// The node is already AT the tip of its peers (or one block short, which block sync cannot
 		// close): nothing to sync.  The hand-over must then ask consensus to catch up from its WAL.
